@@ -3,6 +3,7 @@ same record types the in-process oracles use."""
 
 from __future__ import annotations
 
+import copy
 import random
 from datetime import datetime
 from fractions import Fraction
@@ -82,6 +83,26 @@ def add_dust_account(rng: random.Random, hist: Dict[str, Any]) -> None:
     hist["rows"].append({"t": "OUT", "row": next_row + 1, "ts": fmt_ts(last + timedelta(days=2), 0), "ex": exchange, "ho": holder, "type": "SELL", "spot": "110", "cout": dstr(base), "cfee": "0", "cout_wf": None, "fout_nf": None, "ffee": None, "uid": f"{hist['asset']}-OUT-dust{n_out}", "notes": ""})
 
 
+def add_verbatim_duplicate(rng: random.Random, hist: Dict[str, Any], tables: Tuple[str, ...] = ("IN",)) -> Optional[Dict[str, Any]]:
+    """Insert, right below one row, a second row equal to it in every cell - timestamp, amounts, unique id, notes (interest paid
+    twice in one second, an order filled in two equal parts that the export reports under one id, a withdrawal batched in equal
+    parts): both are transactions. Out- and transfer rows are only repeated when the history stays valid. Returns the new row."""
+    from rpv.oracle.balance import is_valid
+
+    for _ in range(4):
+        candidates = [r for r in hist["rows"] if r["t"] in tables]
+        if not candidates:
+            return None
+        original = rng.choice(candidates)
+        twin = copy.deepcopy(original)
+        twin["row"] = original["row"] + 0.5  # the writer orders by this key and then stores the real sheet row
+        hist["rows"].append(twin)
+        if original["t"] == "IN" or is_valid(Model(hist)):
+            return twin
+        hist["rows"].remove(twin)
+    return None
+
+
 def method_choice(rng: random.Random, country: str, hists: Dict[str, Dict[str, Any]]) -> Tuple[List[str], Optional[Dict[int, str]], Dict[int, str], str]:
     """Pick how the method is given: -m, [accounting_methods] in the config, or the country default.
     Returns (cli args, accounting_methods for the ini, effective schedule, file-name prefix word)."""
@@ -101,28 +122,52 @@ def method_choice(rng: random.Random, country: str, hists: Dict[str, Dict[str, A
     return [], None, {1970: "fifo"}, "fifo"
 
 
+def _event_key(event: Any) -> Tuple[Any, ...]:
+    return (event.ts, event.table, event.type, event.amount, event.taxable_fiat, event.spot, event.account)
+
+
+def _twins(keys: List[Tuple[Any, ...]]) -> bool:
+    return all(k == keys[0] for k in keys)
+
+
 def decode_trace(report: FullReport, asset: str, model: Model) -> Tuple[List[Fraction_], List[str]]:
     """Gain / Loss Detail rows -> Fraction_ records (amounts snapped to 11 decimals, ids through the unique ids)."""
     problems: List[str] = []
-    event_of: Dict[Tuple[str, str], int] = {}
-    for row, event in model.events.items():
-        key = (event.uid, event.table)
-        if key in event_of:
+    # rows repeated verbatim (cli_core.add_verbatim_duplicate) share their unique id: the report cannot tell them apart, and since
+    # they agree in every cell neither can any oracle - detail rows are handed to the twins in sheet order, each up to its amount
+    events_of: Dict[Tuple[str, str], List[int]] = {}
+    for row in sorted(model.events, key=lambda k: (k < 0, abs(k))):
+        event = model.events[row]
+        events_of.setdefault((event.uid, event.table), []).append(row)
+    lots_of: Dict[str, List[int]] = {}
+    for row in sorted(model.lots):
+        lots_of.setdefault(model.lots[row].uid, []).append(row)
+    for key, rows in events_of.items():
+        if len(rows) > 1 and not _twins([_event_key(model.events[r]) for r in rows]):
             problems.append(f"ambiguous event key {key}")
-        event_of[key] = row
-    lot_of = {lot.uid: row for row, lot in model.lots.items()}
+    event_room = {row: event.amount for row, event in model.events.items()}
+    lot_room = {row: lot.amount for row, lot in model.lots.items()}
+
+    def pick(rows: List[int], room: Dict[int, Fraction], amount: Fraction) -> Optional[int]:
+        if not rows:
+            return None
+        chosen = next((r for r in rows if room[r] > 0), rows[-1])
+        room[chosen] -= amount
+        return chosen
+
     long_word = report._("LONG")
     short_word = report._("SHORT")
     trace: List[Fraction_] = []
     for d in report.detail_rows(asset):
         direction, ttype = split_dir_type(d["event_dir_type"])
-        event_row = event_of.get((str(d["event_uid"]), direction))
+        amount = snap(d["amount"]) or Fraction(0)
+        event_row = pick(events_of.get((str(d["event_uid"]), direction), []), event_room, amount)
         if event_row is None:
             problems.append(f"detail row {d['sheet_row']}: unknown event uid={d['event_uid']!r} dir={direction!r}")
             continue
         lot_row = None
         if d["lot_uid"] not in (None, ""):
-            lot_row = lot_of.get(str(d["lot_uid"]))
+            lot_row = pick(lots_of.get(str(d["lot_uid"]), []), lot_room, amount)
             if lot_row is None:
                 problems.append(f"detail row {d['sheet_row']}: unknown lot uid={d['lot_uid']!r}")
                 continue
@@ -133,7 +178,7 @@ def decode_trace(report: FullReport, asset: str, model: Model) -> Tuple[List[Fra
             Fraction_(
                 event_row,
                 lot_row,
-                snap(d["amount"]) or Fraction(0),
+                amount,
                 num(d["proceeds"]) or Fraction(0),
                 num(d["cost"]) or Fraction(0),
                 num(d["gain"]) or Fraction(0),
